@@ -104,3 +104,48 @@ pub fn dump(profile: &str, size: usize, hay_len: usize, out: &str) -> i32 {
     eprintln!("dumped {} (pattern, flags, haystack) lines for profile {}", n, profile);
     0
 }
+
+/// Same for the class expressions of C12 (the v-mode set semantics against V8).
+pub fn dump_classes(out: &str) -> i32 {
+    let mut f = std::io::BufWriter::new(std::fs::File::create(out).unwrap());
+    let mut hays = enumerate::all_hays(&crate::c12::universe(), 1);
+    for s in ["ab", "ba", "ka", "aa", "kb", "Ab", "aB"] {
+        hays.push(enumerate::Hay::new(s.chars().map(|c| c as u32).collect()));
+    }
+    let mut jobs: Vec<(Node, Flags)> = Vec::new();
+    for vc in crate::c12::v_classes(1, false) {
+        for fl in ["v", "iv"] {
+            jobs.push((Node::VClass(vc.clone()), Flags::parse(fl)));
+        }
+    }
+    for c in crate::c12::legacy_classes() {
+        for fl in ["", "i", "u", "iu"] {
+            jobs.push((c.clone(), Flags::parse(fl)));
+        }
+    }
+    let mut n = 0u64;
+    for (class, fl) in jobs {
+        for ast in [Node::Cat(vec![Node::AssertStart, class.clone(), Node::AssertEnd]), class.clone()] {
+            if ast.validate(fl).is_err() {
+                continue;
+            }
+            let Ok(prog) = refmatch::compile(&ast, fl) else { continue };
+            let pat = print::print(&ast);
+            for hay in &hays {
+                let mut results = Vec::new();
+                for s in 0..=hay.cps.len() {
+                    let (r, _) = prog.find_from(&hay.cps, s, 2_000_000);
+                    match r {
+                        RefResult::Cut => {}
+                        RefResult::NoMatch => results.push(format!("[{},null]", s)),
+                        RefResult::Match(m) => results.push(format!("[{},[{},{}],[]]", s, m.start, m.end)),
+                    }
+                }
+                writeln!(f, "{{\"p\":\"{}\",\"f\":\"{}\",\"h\":\"{}\",\"r\":[{}]}}", js_escape(&pat), fl.to_string(), js_escape(&hay.cps), results.join(",")).unwrap();
+                n += 1;
+            }
+        }
+    }
+    eprintln!("dumped {} class lines", n);
+    0
+}
